@@ -1,5 +1,6 @@
 import AC.ProgramTie
 import AC.BigintTie
+import AC.BigintsTie
 /-! # The translated `Chain.IsAscending` / `Chain.Ops` / `Chain.End` equal the hand-written model
 
 `chainOps`, `chainIsAscending`, `chainEnd` of `AC/Gen/ProgramFns.lean` are regenerated from chain.go on
@@ -250,3 +251,314 @@ theorem end_tie (c : Chain) : chainEnd c = c.getLast? := by
     simp only [h1, idx_nat]
     rw [List.getLast?_eq_getElem?, hc]
     simp
+
+/-! ### `Chain.Op`, `Chain.Program`, `Chain.Validate`, `Chain.Produces` -/
+
+/-- the format string of each validation error -/
+def errFmt : VErr → String
+  | .empty => "chain empty"
+  | .notOne => "chain must start with 1"
+  | .zero => "chain contains zero"
+  | .dup => "chain contains duplicate: %v at positions %d and %d"
+  | .noOp _ => "position %d is not the sum of previous entries"
+
+/-- a result of the translated `Program` that reports the error `e` (and returns a nil program) -/
+def IsErr (e : VErr) (r : List GOp × Option GoErr) : Prop :=
+  r.1 = [] ∧ ∃ args, r.2 = some (errFmt e, args)
+
+theorem op_tie (c : Chain) (k : Nat) (hk : k < c.length) :
+    chainOp c (k : Int) = some (match (ops c k).head? with
+      | some o => (toG o, none)
+      | none => (⟨0, 0⟩, some ("position %d is not the sum of previous entries", [(k : Int)]))) := by
+  unfold chainOp
+  rw [ops_tie c k hk]
+  cases h : ops c k with
+  | nil => simp [len, goErr]
+  | cons o os =>
+    have hne : ¬ (len (toG o :: toGs os) = 0) := by simp [len]; omega
+    simp [hne, idx, goNil]
+
+theorem dup_inner_tie (c : Chain) (i : Nat) (hi : i < c.length) :
+    ∀ (n j : Nat), j + n = c.length →
+    (((c.drop j).contains (at' c i) = true ∧
+        ∃ args, chainProgram_loop2 n (j : Int) c (i : Int) = some (Sum.inl ([], some (errFmt .dup, args)))) ∨
+     ((c.drop j).contains (at' c i) = false ∧
+        chainProgram_loop2 n (j : Int) c (i : Int) = some (Sum.inr ()))) := by
+  intro n
+  induction n with
+  | zero =>
+    intro j hj
+    have : c.drop j = [] := by simp; omega
+    right; simp [this, chainProgram_loop2]
+  | succ n ih =>
+    intro j hj
+    have hjl : j < c.length := by omega
+    have hd : c.drop j = at' c j :: c.drop (j + 1) := by
+      rw [List.drop_eq_getElem_cons hjl]; simp [at', hjl]
+    have e1 : idx c (i : Int) = some (at' c i) := idx_at' c i hi
+    have e2 : idx c (j : Int) = some (at' c j) := idx_at' c j hjl
+    simp only [chainProgram_loop2, e1, e2, bind, Option.bind, AC.BigintTie.equal_eq, hd, List.contains_cons]
+    by_cases heq : at' c i = at' c j
+    · left
+      refine ⟨by simp [heq], ⟨[at' c j, (i : Int), (j : Int)], ?_⟩⟩
+      simp [heq, goErr, errFmt]
+    · have := ih (j + 1) (by omega)
+      push_cast at this
+      have hb : (at' c i == at' c j) = false := by simp [heq]
+      simp only [heq, decide_false, hb, Bool.false_or]
+      simpa using this
+
+/-- what the translated `Program` returns for an outcome of the model's operation collection -/
+def collectOut (p : List Op) : Except VErr (List Op) → List GOp × Option GoErr
+  | .ok q => (toGs (p ++ q), none)
+  | .error (.noOp m) => ([], some (errFmt (.noOp m), [(m : Int)]))
+  | .error _ => ([], none)
+
+theorem collect_loop_tie (c : Chain) : ∀ (n k : Nat) (p : List Op), 1 ≤ k → k + n = c.length →
+    chainProgram_loop3 n (k : Int) c (toGs p) =
+      some (collectOut p (collect ((List.range' k n).map (fun k' => (ops c k').head?)) k)) := by
+  intro n
+  induction n with
+  | zero => intro k p _ _; simp [chainProgram_loop3, collect, collectOut, goNil]
+  | succ n ih =>
+    intro k p hk1 hkl
+    have hk : k < c.length := by omega
+    simp only [chainProgram_loop3, op_tie c k hk, bind, Option.bind, List.range'_succ, List.map_cons]
+    cases ho : (ops c k).head? with
+    | none => simp [collect, collectOut, errFmt]
+    | some o =>
+      have := ih (k + 1) (p ++ [o]) (by omega) (by omega)
+      push_cast at this
+      simp only [Option.isSome_none, Bool.false_eq_true, if_false, collect]
+      have hrw : toGs p ++ [toG o] = toGs (p ++ [o]) := by simp
+      rw [hrw, this]
+      cases collect ((List.range' (k + 1) n).map (fun k' => (ops c k').head?)) (k + 1) with
+      | ok q => simp [collectOut]
+      | error e => cases e <;> simp [collectOut]
+
+theorem firstOps_eq (c : Chain) :
+    firstOps c = (List.range' 1 (c.length - 1)).map (fun k' => (ops c k').head?) := by
+  unfold firstOps
+  rw [List.range'_eq_map_range, List.map_map]
+  apply List.map_congr_left
+  intro a _
+  simp [Nat.add_comm]
+
+theorem dup_outer_tie (c : Chain) : ∀ (n i : Nat), i + n = c.length →
+    ((hasDup (c.drop i) = true ∧ ∃ r, chainProgram_loop1 n (i : Int) c = some r ∧ IsErr .dup r) ∨
+     (hasDup (c.drop i) = false ∧
+        chainProgram_loop1 n (i : Int) c = chainProgram_loop3 (c.length - 1) 1 c [])) := by
+  intro n
+  induction n with
+  | zero =>
+    intro i hi
+    have : c.drop i = [] := by simp; omega
+    right
+    refine ⟨by simp [this, hasDup], ?_⟩
+    have hl : Int.toNat (len c - 1) = c.length - 1 := by simp [len]
+    simp [chainProgram_loop1, hl]
+  | succ n ih =>
+    intro i hi
+    have hil : i < c.length := by omega
+    have hd : c.drop i = at' c i :: c.drop (i + 1) := by
+      rw [List.drop_eq_getElem_cons hil]; simp [at', hil]
+    have hn : Int.toNat (len c - ((i : Int) + 1)) = c.length - (i + 1) := by simp [len]; omega
+    have hin := dup_inner_tie c i hil (c.length - (i + 1)) (i + 1) (by omega)
+    push_cast at hin
+    simp only [chainProgram_loop1, hn, bind, Option.bind, hd, hasDup]
+    rcases hin with ⟨hc, args, hr⟩ | ⟨hc, hr⟩
+    · left
+      have hm : at' c i ∈ c.drop (i + 1) := by simpa using hc
+      refine ⟨by simp [hm], ([], some (errFmt .dup, args)), ?_, ⟨rfl, args, rfl⟩⟩
+      rw [hr]; rfl
+    · rw [hr]
+      have := ih (i + 1) (by omega)
+      push_cast at this
+      simp only [hc, Bool.false_or]
+      simpa using this
+
+theorem collect_error_noOp : ∀ (l : List (Option Op)) (k : Nat) (e : VErr), collect l k = .error e →
+    ∃ m, e = .noOp m := by
+  intro l
+  induction l with
+  | nil => intro k e h; simp [collect] at h
+  | cons a l ih =>
+    intro k e h
+    cases a with
+    | none => simp only [collect] at h; cases h; exact ⟨k, rfl⟩
+    | some o =>
+      simp only [collect] at h
+      cases hc : collect l (k + 1) with
+      | ok p => rw [hc] at h; cases h
+      | error e' => rw [hc] at h; cases h; exact ih (k + 1) _ hc
+
+/-- **`Chain.Program` as translated from chain.go equals the model**: it never panics; on a valid
+    chain it returns the model's program and a nil error, otherwise a nil program and the error
+    the model reports (identified by its format string) -/
+theorem program_tie (c : Chain) : ∃ r, chainProgram c = some r ∧
+    (match program c with
+     | .ok p => r = (toGs p, none)
+     | .error e => IsErr e r) := by
+  cases c with
+  | nil =>
+    have hp : program [] = .error .empty := by simp [program]
+    rw [hp]
+    exact ⟨([], some (errFmt .empty, [])), by simp [chainProgram, len, goErr, errFmt], rfl, [], rfl⟩
+  | cons x xs =>
+    have hlen : (len (x :: xs) == 0) = false := by simp [len]; omega
+    have h0 : idx (x :: xs) 0 = some x := by simp [idx]
+    have hcmp : (bCmp x (bNewInt 1) != 0) = (at' (x :: xs) 0 != 1) := by
+      have := bCmp_eq_zero x 1
+      simp only [bne, bNewInt, this, at', List.getD_cons_zero]
+      by_cases hx : x = 1 <;> simp [hx]
+    have hz : bigintsContains AC.Gen.Bigint.zero (x :: xs) = some ((x :: xs).contains 0) :=
+      AC.BigintsTie.contains_tie _ _
+    have hN : Int.toNat (len (x :: xs) - 0) = (x :: xs).length := by simp [len]
+    unfold chainProgram
+    simp only [hlen, h0, hcmp, hz, hN, bind, Option.bind, Bool.false_eq_true, if_false]
+    by_cases h1 : (at' (x :: xs) 0 != 1) = true
+    · have hp : program (x :: xs) = .error .notOne := by simp [program, h1]
+      rw [hp]
+      exact ⟨([], some (errFmt .notOne, [])), by simp [h1, goErr, errFmt], rfl, [], rfl⟩
+    · by_cases h2 : (x :: xs).contains 0 = true
+      · have hp : program (x :: xs) = .error .zero := by
+          unfold program; rw [if_neg (by simp), if_neg h1, if_pos h2]
+        rw [hp]
+        refine ⟨([], some (errFmt .zero, [])), ?_, rfl, [], rfl⟩
+        rw [if_neg h1, if_pos h2]; rfl
+      · rw [if_neg h1, if_neg h2]
+        rcases dup_outer_tie (x :: xs) (x :: xs).length 0 (by simp) with ⟨hd, r, hr, hE⟩ | ⟨hd, hr⟩
+        · simp only [List.drop_zero] at hd
+          have hp : program (x :: xs) = .error .dup := by
+            unfold program; rw [if_neg (by simp), if_neg h1, if_neg h2, if_pos hd]
+          rw [hp]
+          exact ⟨r, by simpa using hr, hE⟩
+        · simp only [List.drop_zero] at hd
+          have hcl := collect_loop_tie (x :: xs) ((x :: xs).length - 1) 1 [] (by omega) (by simp; omega)
+          rw [← firstOps_eq] at hcl
+          have hp : program (x :: xs) = collect (firstOps (x :: xs)) 1 := by
+            unfold program; rw [if_neg (by simp), if_neg h1, if_neg h2, if_neg (by simp [hd])]
+          rw [hp]
+          have hr' : chainProgram_loop1 (x :: xs).length 0 (x :: xs) =
+              chainProgram_loop3 ((x :: xs).length - 1) 1 (x :: xs) [] := by simpa using hr
+          have hcl' : chainProgram_loop3 ((x :: xs).length - 1) 1 (x :: xs) [] =
+              some (collectOut [] (collect (firstOps (x :: xs)) 1)) := by simpa using hcl
+          refine ⟨collectOut [] (collect (firstOps (x :: xs)) 1), by rw [hr', hcl'], ?_⟩
+          cases hcol : collect (firstOps (x :: xs)) 1 with
+          | ok p => simp [collectOut]
+          | error e =>
+            obtain ⟨m, rfl⟩ := collect_error_noOp _ _ _ hcol
+            exact ⟨rfl, [(m : Int)], rfl⟩
+
+theorem validate_tie (c : Chain) :
+    ∃ e, chainValidate c = some e ∧ (e = none ↔ validate c = true) := by
+  obtain ⟨r, hr, hm⟩ := program_tie c
+  refine ⟨r.2, by simp [chainValidate, hr], ?_⟩
+  unfold validate
+  cases hp : program c with
+  | ok p => rw [hp] at hm; simp [hm]
+  | error e => rw [hp] at hm; obtain ⟨_, args, h2⟩ := hm; simp [h2]
+
+theorem produces_tie (c : Chain) (t : Int) :
+    ∃ e, chainProduces c t = some e ∧ (e = none ↔ produces c t = true) := by
+  obtain ⟨e, he, hv⟩ := validate_tie c
+  unfold chainProduces produces
+  simp only [he, bind, Option.bind]
+  cases e with
+  | some err =>
+    refine ⟨some err, by simp, ?_⟩
+    have : validate c = false := by
+      cases h : validate c
+      · rfl
+      · exact absurd (hv.2 h) (by simp)
+    simp [this]
+  | none =>
+    have hval : validate c = true := hv.1 rfl
+    have hne : c ≠ [] := by
+      intro h; subst h; simp [validate, program] at hval
+    obtain ⟨l, hl⟩ := List.getLast?_isSome.2 hne |> Option.isSome_iff_exists.1
+    have hend : chainEnd c = some l := by rw [end_tie, hl]
+    have hb := bCmp_eq_zero l t
+    simp only [Option.isSome_none, Bool.false_eq_true, if_false, hend, bne, hb, hval, Bool.true_and, hl]
+    by_cases hlt : l = t
+    · exact ⟨none, by simp [hlt, goNil], by simp [hlt]⟩
+    · exact ⟨some ("chain does not end with target", []), by simp [hlt, goErr], by simp [hlt]⟩
+
+/-! ### `Chain.Superset`, `Product`, `Plus` -/
+
+theorem superset_loop_tie (c : Chain) : ∀ (ts ts0 : List Int),
+    ∃ e, chainSuperset_loop1 ts c ts0 = some e ∧ (e = none ↔ ts.all (fun t => c.contains t) = true) := by
+  intro ts
+  induction ts with
+  | nil => intro ts0; exact ⟨none, by simp [chainSuperset_loop1, goNil], by simp⟩
+  | cons t ts ih =>
+    intro ts0
+    by_cases h : c.contains t = true
+    · obtain ⟨e, h1, h2⟩ := ih ts0
+      refine ⟨e, ?_, ?_⟩
+      · simp only [chainSuperset_loop1, AC.BigintsTie.contains_tie, bind, Option.bind, h, Bool.not_true,
+          Bool.false_eq_true, if_false]
+        exact h1
+      · simp only [List.all_cons, h, Bool.true_and]; exact h2
+    · have hf : c.contains t = false := by
+        cases hh : c.contains t
+        · rfl
+        · exact absurd hh h
+      refine ⟨some ("chain does not contain %v", [t]), ?_, ?_⟩
+      · simp only [chainSuperset_loop1, AC.BigintsTie.contains_tie, bind, Option.bind, hf, Bool.not_false,
+          if_true, goErr]; rfl
+      · simp only [List.all_cons, hf, Bool.false_and]; simp
+
+theorem superset_tie (c : Chain) (ts : List Int) :
+    ∃ e, chainSuperset c ts = some e ∧ (e = none ↔ superset c ts = true) := by
+  obtain ⟨e, he, hv⟩ := validate_tie c
+  unfold chainSuperset superset
+  simp only [he, bind, Option.bind]
+  cases e with
+  | some err =>
+    refine ⟨some err, by simp, ?_⟩
+    have : validate c = false := by
+      cases h : validate c
+      · rfl
+      · exact absurd (hv.2 h) (by simp)
+    simp [this]
+  | none =>
+    have hval : validate c = true := hv.1 rfl
+    obtain ⟨e, h1, h2⟩ := superset_loop_tie c ts ts
+    refine ⟨e, by simp [h1], ?_⟩
+    simp only [hval, Bool.true_and]; exact h2
+
+theorem product_loop_tie (last : Int) : ∀ (xs a b c : List Int),
+    fnProduct_loop1 xs a b c last = some (c ++ xs.map (last * ·)) := by
+  intro xs
+  induction xs with
+  | nil => intro a b c; simp [fnProduct_loop1]
+  | cons x xs ih => intro a b c; simp [fnProduct_loop1, bMul, ih]
+
+theorem product_tie (a b : Chain) : fnProduct a b = PX.productX a b := by
+  unfold fnProduct PX.productX
+  simp only [chainClone, AC.BigintsTie.clone_tie, bind, Option.bind, pure, end_tie]
+  cases a with
+  | nil => simp
+  | cons x xs =>
+    cases b with
+    | nil =>
+      obtain ⟨l, hl⟩ := Option.isSome_iff_exists.1 (List.getLast?_isSome.2 (List.cons_ne_nil x xs))
+      simp [sliceFrom, hl]
+    | cons y ys =>
+      obtain ⟨l, hl⟩ := Option.isSome_iff_exists.1 (List.getLast?_isSome.2 (List.cons_ne_nil x xs))
+      have hsl : sliceFrom (y :: ys) 1 = some ys := by simp [sliceFrom]
+      have hld : (x :: xs).getLastD 1 = l := by
+        rw [List.getLastD_eq_getLast?, hl]; rfl
+      simp [hl, hsl, product_loop_tie, product, hld]
+
+theorem plus_tie (a : Chain) (x : Int) : fnPlus a x = PX.plusX a x := by
+  unfold fnPlus PX.plusX
+  simp only [chainClone, AC.BigintsTie.clone_tie, bind, Option.bind, pure, end_tie]
+  cases a with
+  | nil => simp
+  | cons y ys =>
+    obtain ⟨l, hl⟩ := Option.isSome_iff_exists.1 (List.getLast?_isSome.2 (List.cons_ne_nil y ys))
+    have hld : (y :: ys).getLastD 1 = l := by
+      rw [List.getLastD_eq_getLast?, hl]; rfl
+    simp [hl, bAdd, plus, hld]
